@@ -89,6 +89,9 @@ var errErrorInMessageHandler = StringValue("error in error handling")
 func (t *Thread) RunContinuation(c Cont) (err error) {
 	var next Cont
 	var errContCount = 0
+	// Nested calls (e.g. a metamethod called from a running Lua continuation)
+	// must leave the current continuation as they found it.
+	defer func(prev Cont) { t.currentCont = prev }(t.currentCont)
 	_ = t.triggerCall(t, c)
 	for c != nil {
 		if t != t.gcThread {
